@@ -196,7 +196,7 @@ Proof.
   - apply coinbaseb_iff in C.
     rewrite (forallb_Forall _ (fun x => 2 <= lenZ (ti_script x) <= 100))
       by (intros a; rewrite andb_true_iff, !Z.leb_le; tauto).
-    rewrite Forall_forall. tauto.
+    rewrite (Forall_forall (fun x => 2 <= lenZ (ti_script x) <= 100)). tauto.
   - apply coinbaseb_false_iff in C.
     rewrite (forallb_Forall _ (fun x => ~ null_outpoint (ti_prevout x)))
       by (intros a; rewrite negb_true_iff, <- null_outpointb_iff; destruct (null_outpointb _); split; congruence).
